@@ -25,25 +25,42 @@ def arriveCalls : List (Tid × Ev) → Nat
 structure J (s : St) (P : List Tid) (c : Nat) : Prop where
   sum : s.arrived + P.length = c
   mem : ∀ t, (s.pc t).pending = true → t ∈ P
+  only : ∀ t, t ∈ P → (s.pc t).pending = true
+  nodup : P.Nodup
 
 theorem J_frame {s s' : St} {P : List Tid} {c : Nat} {t : Tid} {p' : Pc} (h : J s P c)
     (ha : s'.arrived = s.arrived) (hpc : s'.pc = upd s.pc t p')
-    (hp : p'.pending = true → (s.pc t).pending = true) : J s' P c := by
-  refine ⟨by rw [ha]; exact h.sum, ?_⟩
-  intro u hu
-  rw [hpc, upd_apply] at hu
-  by_cases hut : u = t
-  · subst hut; simp at hu; exact h.mem u (hp hu)
-  · simp [hut] at hu; exact h.mem u hu
+    (hp : p'.pending = (s.pc t).pending) : J s' P c := by
+  refine ⟨by rw [ha]; exact h.sum, ?_, ?_, h.nodup⟩
+  · intro u hu
+    rw [hpc, upd_apply] at hu
+    by_cases hut : u = t
+    · subst hut; simp at hu; exact h.mem u (hp ▸ hu)
+    · simp [hut] at hu; exact h.mem u hu
+  · intro u hu
+    rw [hpc, upd_apply]
+    by_cases hut : u = t
+    · subst hut; simp; rw [hp]; exact h.only u hu
+    · simp [hut]; exact h.only u hu
 
 theorem J_call {s s' : St} {P : List Tid} {c : Nat} {t : Tid} {p' : Pc} (h : J s P c)
-    (ha : s'.arrived = s.arrived) (hpc : s'.pc = upd s.pc t p') : J s' (t :: P) (c + 1) := by
-  refine ⟨by rw [ha]; have := h.sum; simp; omega, ?_⟩
-  intro u hu
-  rw [hpc, upd_apply] at hu
-  by_cases hut : u = t
-  · subst hut; simp
-  · simp [hut] at hu; exact List.mem_cons_of_mem _ (h.mem u hu)
+    (ha : s'.arrived = s.arrived) (hpc : s'.pc = upd s.pc t p')
+    (hold : (s.pc t).pending = false) (hp : p'.pending = true) : J s' (t :: P) (c + 1) := by
+  have hnin : t ∉ P := by intro hin; have := h.only t hin; rw [hold] at this; cases this
+  refine ⟨by rw [ha]; have := h.sum; simp; omega, ?_, ?_, List.nodup_cons.2 ⟨hnin, h.nodup⟩⟩
+  · intro u hu
+    rw [hpc, upd_apply] at hu
+    by_cases hut : u = t
+    · subst hut; simp
+    · simp [hut] at hu; exact List.mem_cons_of_mem _ (h.mem u hu)
+  · intro u hu
+    rw [hpc, upd_apply]
+    by_cases hut : u = t
+    · subst hut; simp [hp]
+    · simp [hut]
+      rcases List.mem_cons.1 hu with h1 | h1
+      · exact absurd h1 hut
+      · exact h.only u h1
 
 theorem J_dec {s s' : St} {P : List Tid} {c : Nat} {t : Tid} {p' : Pc} (h : J s P c)
     (ha : s'.arrived = s.arrived + 1) (hpc : s'.pc = upd s.pc t p')
@@ -51,13 +68,18 @@ theorem J_dec {s s' : St} {P : List Tid} {c : Nat} {t : Tid} {p' : Pc} (h : J s 
   have hin : t ∈ P := h.mem t hold
   have hlen : (P.erase t).length = P.length - 1 := List.length_erase_of_mem hin
   have hpos : 0 < P.length := List.length_pos_of_mem hin
-  refine ⟨by rw [ha, hlen]; have := h.sum; omega, ?_⟩
-  intro u hu
-  rw [hpc, upd_apply] at hu
-  by_cases hut : u = t
-  · subst hut; simp [hp] at hu
-  · simp [hut] at hu
-    exact (List.mem_erase_of_ne hut).2 (h.mem u hu)
+  refine ⟨by rw [ha, hlen]; have := h.sum; omega, ?_, ?_, h.nodup.erase t⟩
+  · intro u hu
+    rw [hpc, upd_apply] at hu
+    by_cases hut : u = t
+    · subst hut; simp [hp] at hu
+    · simp [hut] at hu
+      exact (List.mem_erase_of_ne hut).2 (h.mem u hu)
+  · intro u hu
+    have hu2 := (h.nodup.mem_erase_iff).1 hu
+    rw [hpc, upd_apply]
+    simp [hu2.1]
+    exact h.only u hu2.2
 
 theorem J_step {s s' : St} {P : List Tid} {c : Nat} {t : Tid} {e : Ev} (h : J s P c)
     (hs : step s t e = some s') : ∃ P', J s' P' (c + acN e) := by
@@ -69,7 +91,7 @@ theorem J_step {s s' : St} {P : List Tid} {c : Nat} {t : Tid} {e : Ev} (h : J s 
   all_goals rename_i hpcs _
   all_goals first
     | exact ⟨P, J_frame (t := t) h rfl rfl (by simp_all [Pc.pending])⟩
-    | exact ⟨t :: P, J_call (t := t) h rfl rfl⟩
+    | exact ⟨t :: P, J_call (t := t) h rfl rfl (by simp_all [Pc.pending]) (by simp [Pc.pending])⟩
     | exact ⟨P.erase t, J_dec (t := t) h rfl rfl (by simp_all [Pc.pending]) (by simp [Pc.pending])⟩
 
 theorem J_run {s s' : St} {P : List Tid} {c : Nat} (es : List (Tid × Ev)) (h : J s P c)
@@ -88,6 +110,19 @@ theorem J_run {s s' : St} {P : List Tid} {c : Nat} (es : List (Tid × Ev)) (h : 
       exact ⟨P2, by simpa [arriveCalls, Nat.add_assoc] using h2⟩
 
 theorem J_init (start : Int) : J (init start) [] 0 :=
-  ⟨rfl, by intro t ht; simp [init, Pc.pending] at ht⟩
+  { sum := rfl
+    mem := fun t ht => by simp [init, Pc.pending] at ht
+    only := fun t ht => by cases ht
+    nodup := List.nodup_nil }
+
+/-- the constructor argument never changes -/
+theorem run_start {start : Int} {es : List (Tid × Ev)} {s : St} (h : run start es = some s) : s.start = start := by
+  have : ∀ (s0 s1 : St) (es : List (Tid × Ev)), runFrom step s0 es = some s1 → s1.start = s0.start := by
+    intro s0 s1 es hr
+    refine runFrom_rel (R := fun a b => b.start = a.start) (fun _ => rfl) (fun a b c h1 h2 => by rw [h2, h1]) ?_ hr
+    intro a u e b hab
+    unfold step at hab
+    split at hab <;> (repeat' (split at hab)) <;> first | contradiction | (injection hab with hab; subst hab; rfl)
+  exact this _ _ es h
 
 end ConcVerif.Latch
